@@ -40,6 +40,7 @@ pub fn generate(prop: &str, thorough: bool, verif_seed: u64, idx: u64) -> Value 
         "C16" => serde_json::to_value(scen_list::generate_c16(rs, thorough)).unwrap(),
         "C15" => serde_json::to_value(scen_list::generate_c15(rs, thorough, idx % 8 == 7)).unwrap(),
         "C11" if idx % 5 == 4 => serde_json::to_value(crate::scen_life::generate_owner_race(rs)).unwrap(),
+        "C11" if idx % 10 == 7 => serde_json::to_value(crate::scen_life::generate_reload_loop(rs)).unwrap(),
         "C11" => serde_json::to_value(crate::scen_life::generate(rs, thorough)).unwrap(),
         "C12" if idx % 8 == 5 => serde_json::to_value(crate::scen_conc::generate_stringbuf(rs, thorough)).unwrap(),
         "C12" if idx % 8 == 1 => serde_json::to_value(crate::scen_conc::generate_call_race(rs)).unwrap(),
@@ -192,6 +193,11 @@ pub fn run_descs(shm: &Shm, warmed: &Warmed, descs: &[Value], per_child: usize, 
         let mut timed_out: Option<String> = None;
         let mut spin = 0u32;
         let mut last_beat = (u64::MAX, Instant::now());
+        // a run with an instruction-level window may park a thread inside a critical section of a
+        // primitive the seam does not cover (the interner's shard lock): the others then block in
+        // the kernel, which is noticed sooner for such runs and costs the run, not the check
+        let windowed = |d: &Value| !d["fine"].is_null() || !d["anchor"].is_null();
+        let sleep_limit = if descs[pos..end].iter().any(windowed) { Duration::from_secs(2) } else { Duration::from_secs(8) };
         loop {
             // SAFETY: plain waitpid
             let r = unsafe { libc::waitpid(pid, &mut status, libc::WNOHANG) };
@@ -208,7 +214,7 @@ pub fn run_descs(shm: &Shm, warmed: &Warmed, descs: &[Value], per_child: usize, 
                 last_beat = (beat, Instant::now());
             }
             let stalled = last_beat.1.elapsed();
-            if t0.elapsed() > limit || stalled > Duration::from_secs(8) {
+            if t0.elapsed() > limit || stalled > sleep_limit {
                 // who is stuck? running (spinning) or sleeping (blocked in the kernel on an un-hooked primitive)
                 let a = thread_states(pid);
                 std::thread::sleep(Duration::from_millis(50));
@@ -280,6 +286,11 @@ pub fn run_descs(shm: &Shm, warmed: &Warmed, descs: &[Value], per_child: usize, 
         if let Some(kind) = timed_out {
             if kind == "spinning" {
                 r.violations.push(("non-termination".into(), "run made no progress for 30 s (or exceeded its wall budget) while a thread of the run was still executing (not blocked)".to_string()));
+            } else if descs.get(at).map(windowed).unwrap_or(false) {
+                // not a verdict about roto and not a failure of the harness: the preemption landed
+                // where this simulator cannot schedule (inside an un-hooked critical section)
+                r.counters.insert("runs".into(), 1);
+                r.counters.insert("runs_discarded_window_inside_unhooked_critical_section".into(), 1);
             } else {
                 harness_error = Some("simulator lost control: the run made no progress for 8 s and every thread of it is sleeping (blocked on a primitive the seam does not cover?)".to_string());
             }
